@@ -59,6 +59,10 @@ TRIPLE_RE = _compile(
 )
 
 
+# only these end a line, as with files opened in universal-newlines mode
+_LINE_BREAK = re.compile(r'\r\n|\r|\n')
+
+
 class Token(NamedTuple):
     """
     A lexed token.
@@ -186,7 +190,7 @@ def lex(
         A :class:`TokenIterator` object
     """
     if isinstance(lines, str):
-        lines = lines.splitlines()
+        lines = _LINE_BREAK.split(lines)
     if pattern is not None:
         if isinstance(pattern, str):
             regex = re.compile(pattern, flags=re.VERBOSE)
